@@ -98,6 +98,7 @@ KANI_META.update({
     'k_cli_statistic_dispatch_2d_normalised': K('bounded', 'one concrete [2,3] table (Fst is NaN on it: only its wiring, not its normalisation, is visible)', ['Statistic::calculate: F2, Fst', 'Spectrum::into_normalized']),
     'k_cli_statistic_dispatch_3d': K('bounded', 'one concrete [2,2,2] table', ['Statistic::calculate: F3', 'Spectrum::into_normalized']),
     'k_cli_statistic_dispatch_4d': K('bounded', 'one concrete [2,2,2,2] table', ['Statistic::calculate: F4', 'Spectrum::into_normalized']),
+    'k_stat_normalize_definition': K('bounded', 'one concrete 2x3 table (bit-exact per cell; sum within 1e-9 of one)', ['Spectrum::normalize', 'Spectrum::into_normalized', 'Spectrum::sum']),
     'k_stat_theta_pi_definition': K('bounded', 'count spectra with 3, 4, 5 chromosomes, one concrete table each, tolerance 1e-9; utils::binomial stubbed by its table', ['Theta<Watterson>::from_spectrum', 'Theta<Tajima>::from_spectrum', 'Estimator::estimate_unchecked', 'utils::harmonic']),
     'k_stat_f2_fst_definition': K('bounded', 'one normalised 3x4 table and its transpose, tolerance 1e-9; f64::powi stubbed by repeated multiplication', ['F2::from_sfs', 'Fst::from_sfs', 'FrequenciesIter::next', 'Spectrum::into_normalized']),
     'k_stat_f3_definition': K('bounded', 'one normalised 2x3x3 table, tolerance 1e-9; Array::sum stubbed by its contract, f64::powi by repeated multiplication', ['F3::from_sfs', 'F2::from_sfs', 'Spectrum::marginalize', 'FrequenciesIter::next']),
@@ -221,7 +222,7 @@ REGISTRY = {
     'C14': {
         'title': 'statistics are invariant under the transformations that must not matter',
         'level': 'model_checking',
-        'kani_quick': ['k_stat_king_r0_r1_definition', 'k_stat_monomorphic_1d'],
+        'kani_quick': ['k_stat_king_r0_r1_definition', 'k_stat_monomorphic_1d', 'k_stat_normalize_definition'],
         'kani_thorough': ['k_stat_monomorphic_2d', 'k_stat_f2_fst_definition', 'k_stat_f3_definition'],
         'assumptions': [A_PMF, A_FLOATSUM, 'f64::powi(x, 2) = x * x (stub in the f2/Fst/f3 harnesses)'],
         'not_decided': ['f4 as a combination of f2 of marginals, invariance under folding, general positive scale factors, pi_xy swap symmetry; f3 = (f2+f2-f2)/2 and f2/Fst swap symmetry only on one concrete table each up to 1e-9 (real-number identities that do not hold bitwise in f64)'],
